@@ -42,5 +42,7 @@ func TestVerif_C20_Sim(t *testing.T) {
 	if r.Outcomes["up-did-not-establish"] == 0 && len(r.Violations) == 0 {
 		t.Fatalf("ENGINE-ERROR vacuous: the prefix limit never took a peer down administratively: %v", r.Outcomes)
 	}
+	// auxiliary services: MRT dumping switched on at some point of the history
+	simExplore(t, r, simExploreCfg{Scenario: "c20aux", Arg: "", Depth: 3, Budget: budget})
 	simConfirm(t, r, 3)
 }
